@@ -458,9 +458,44 @@ class Unord:
             if (c.trait or "").endswith("Iterator") or m in ("deref_mut", "as_mut", "expect", "unwrap", "borrow_mut", "fmt", "by_ref"):
                 continue
             kind = "keyed-commutative" if KEYED_COMMUTATIVE_RE.search(p) else ("ordered-mutator" if m in ORDERED_MUTATORS else "other")
+            if kind == "other":
+                kind = self._helper_effect(c) or kind
             d = {"callee": p, "kind": kind, "line": c.line}
             if d not in info["effects"]:
                 info["effects"].append(d)
+
+    def _helper_effect(self, c, depth=0):
+        """a private helper handed `&mut` state is what it does with it: keyed-commutative when every mutable call in its own
+        body is (map insert/remove ...), recursively through further private helpers"""
+        from facts import is_private_helper
+        g = self.F.fns.get(c.target_id) if c.target_id else None
+        if g is None or not is_private_helper(g) or depth > 2:
+            return None
+        kinds = set()
+        for cc in g.calls():
+            if g.is_cleanup(cc.bb):
+                continue
+            if not any("l" in a and re.match(r"^&('[a-z_]+ )?mut ", g.local_ty(a["l"])) for a in cc.args):
+                continue
+            pp = cc.target_path or ""
+            mm = cc.method or pp.split("::")[-1]
+            if (cc.trait or "").endswith("Iterator") or mm in ("deref_mut", "as_mut", "expect", "unwrap", "borrow_mut", "fmt", "by_ref"):
+                continue
+            if KEYED_COMMUTATIVE_RE.search(pp):
+                kinds.add("keyed-commutative")
+            elif mm in ORDERED_MUTATORS:
+                kinds.add("ordered-mutator")
+            else:
+                kinds.add(self._helper_effect(cc, depth + 1) or "other")
+        for b in g.blocks:
+            if b.get("cleanup"):
+                continue
+            for st in b["stmts"]:
+                if st["k"] == "assign" and "*" in (st["lhs"].get("p") or []) and re.match(r"^&('[a-z_]+ )?mut ", g.local_ty(st["lhs"]["l"])):
+                    return None       # writes through the reference directly: last writer wins, order matters
+        if kinds == {"keyed-commutative"}:
+            return "keyed-commutative"
+        return None
 
     def _term_uses_elem(self, fn, op, elem):
         if "l" not in op:
